@@ -85,7 +85,13 @@ def c19(tier):
     bad = '{"ev":"reset","variant":"opl"}\n{"ev":"write","f":"a","v":1,"valid":true}\n{"ev":"obs","o_a":1,"o_b":0}\n{"ev":"obs","o_a":0,"o_b":0}\n'
     if validate(bad):
         raise Inconclusive("self-test failed: a trace that goes back to nothing was accepted")
-    ck.extra["trace_selftests_rejected"] = 2
+    bad = ('{"ev":"reset","variant":"opl"}\n{"ev":"write","f":"a","v":1,"valid":true}\n{"ev":"obs","o_a":1,"o_b":0}\n{"ev":"remove","f":"a"}\n'
+           '{"ev":"obs","o_a":1,"o_b":0}\n{"ev":"obs","o_a":0,"o_b":0}\n{"ev":"write","f":"a","v":2,"valid":true}\n{"ev":"obs","o_a":2,"o_b":0}\n')
+    if not validate(bad):
+        raise Inconclusive("self-test failed: a removal that is processed after the old version was seen once more was rejected")
+    if validate(bad + '{"ev":"obs","o_a":0,"o_b":0}\n'):
+        raise Inconclusive("self-test failed: nothing shown after a version written after the removal was accepted")
+    ck.extra["trace_selftests_rejected"] = 3
     ck.extra["sequences"] = len(seqs)
     ck.rule = ("random write/remove sequences (valid, syntactically invalid, type-incorrect versions; one or two files; OPL directory and single-file targets; legacy JSON/YAML/TOML "
                "directories) executed with atomic renames against the real fsnotify-backed watchers while a sampler reads Namespaces() every 150 us; the recorded log is validated by TLC "
